@@ -295,6 +295,15 @@ theorem serve_joins_all_goroutines :
 theorem conn_tracked_until_closed :
     Generated.connsDeletes ≠ [] ∧ ∀ d ∈ Generated.connsDeletes, d.2 = 1 := by decide
 
+/-- `channel_close_sites`: the owner table `channels_closed_by_owner` proves things about is the source's: each of the four
+    per-connection channels has exactly one `close(…)` statement in package server — `client.close` inside the `errOnce.Do`
+    literal of `setError`, `client.in` in readLoop's deferred literal, `client.connected` in connectWithTimeOut's deferred
+    literal, `client.closed` as a plain statement of internalClose (re-read on every run). A second close site, or one moved
+    out of its `sync.Once`, is a possible double close (panic) that no scripted lifecycle need hit. -/
+theorem channel_close_sites :
+    Generated.closeSites = [("client.close", "setError", 1), ("client.in", "readLoop", 2),
+      ("client.connected", "connectWithTimeOut", 2), ("client.closed", "internalClose", 0)] := by decide
+
 /-! ## 6. lock order: the part that holds for every tree (the rest is in Properties/C15LockOrder.lean) -/
 
 /-- a path of ≥ 1 edges -/
